@@ -121,27 +121,36 @@ func referencePass(pool []*c14sim.Key, poolPath string, parallel int) (excluded 
 	// The reference is itself an observation of the property: two lone first calls with the same key in two
 	// fresh processes must agree. (Per-process randomness — hash seeds, addresses, map iteration order —
 	// shows here without any schedule at all.)
-	var again []*drv.Job
-	var idx []int
-	for i, k := range pool {
-		if !k.RefOK {
-			continue
-		}
-		kb, _ := json.Marshal(&c14sim.Key{ID: k.ID, API: k.API, Source: k.Source, Params: k.Params, Extra: k.Extra})
-		// the second process runs in a different ENVIRONMENT (seeded): the result may depend on the key only
-		again = append(again, &drv.Job{Name: fmt.Sprint(k.ID), Argv: []string{*refBin}, Stdin: kb, Timeout: 10 * time.Second, Dir: *work, Env: perturbedEnv(k)})
-		idx = append(idx, i)
+	// With variables of its own to assign (the tree reads some), four differently drawn environments per key.
+	rounds := 1
+	if len(envVars.Vars) > 0 {
+		rounds = 4
 	}
-	drv.RunPool(again, parallel, nil, nil)
-	for n, j := range again {
-		k := pool[idx[n]]
-		if !j.TimedOut && j.ExitCode == 0 && string(j.Stdout) != k.Ref {
-			envNote := ""
-			if len(again[n].Env) > 0 {
-				envNote = fmt.Sprintf(" (the second one with the environment changed: %q)", again[n].Env)
+	flagged := map[int]bool{}
+	for round := 0; round < rounds; round++ {
+		var again []*drv.Job
+		var idx []int
+		for i, k := range pool {
+			if !k.RefOK || flagged[i] {
+				continue
 			}
-			loneDisagree = append(loneDisagree, &finding{Class: "lone-calls-disagree", Pool: []*c14sim.Key{k}, Env: again[n].Env,
-				Detail: fmt.Sprintf("two lone first calls with the same source and parameters, each in a fresh process%s, gave different results:\n      %s\n      %s", envNote, clip(k.Ref, 600), clip(string(j.Stdout), 600))})
+			kb, _ := json.Marshal(&c14sim.Key{ID: k.ID, API: k.API, Source: k.Source, Params: k.Params, Extra: k.Extra})
+			// the second process runs in a different ENVIRONMENT (seeded): the result may depend on the key only
+			again = append(again, &drv.Job{Name: fmt.Sprint(k.ID), Argv: []string{*refBin}, Stdin: kb, Timeout: 10 * time.Second, Dir: *work, Env: perturbedEnv(k, round)})
+			idx = append(idx, i)
+		}
+		drv.RunPool(again, parallel, nil, nil)
+		for n, j := range again {
+			k := pool[idx[n]]
+			if !j.TimedOut && j.ExitCode == 0 && string(j.Stdout) != k.Ref {
+				envNote := ""
+				if len(again[n].Env) > 0 {
+					envNote = fmt.Sprintf(" (the second one with the environment changed: %q)", again[n].Env)
+				}
+				loneDisagree = append(loneDisagree, &finding{Class: "lone-calls-disagree", Pool: []*c14sim.Key{k}, Env: again[n].Env,
+					Detail: fmt.Sprintf("two lone first calls with the same source and parameters, each in a fresh process%s, gave different results:\n      %s\n      %s", envNote, clip(k.Ref, 600), clip(string(j.Stdout), 600))})
+				flagged[idx[n]] = true
+			}
 		}
 	}
 	if err := drv.WriteJSON(poolPath, pool); err != nil {
@@ -160,6 +169,9 @@ var envVars struct {
 }
 var envPerturbed int
 
+// nGenericEnvValues is the number of generic candidate values envscan puts in front of the dictionary.
+const nGenericEnvValues = 10
+
 func loadEnvVars() {
 	if *envVarsF == "" {
 		return
@@ -173,8 +185,8 @@ func loadEnvVars() {
 // every variable the tree reads gets a candidate value (or stays unset, 1 in 4), and a few variables that
 // programs commonly consult get unusual values. Go's own runtime knobs (GODEBUG, GOGC, GOMAXPROCS, …) are
 // left alone.
-func perturbedEnv(k *c14sim.Key) []string {
-	r := prng.Sub(*seedFlag, "c14-env", uint64(k.ID))
+func perturbedEnv(k *c14sim.Key, round int) []string {
+	r := prng.Sub(*seedFlag, "c14-env", uint64(k.ID)*8+uint64(round))
 	env := []string{
 		"TZ=" + []string{"Pacific/Kiritimati", "UTC", "America/St_Johns", ""}[r.Intn(4)],
 		"LANG=" + []string{"tr_TR.UTF-8", "C", "de_DE.ISO-8859-1"}[r.Intn(3)],
@@ -192,7 +204,12 @@ func perturbedEnv(k *c14sim.Key) []string {
 		if len(c) == 0 || r.Chance(1, 4) {
 			continue
 		}
-		env = append(env, n+"="+c[r.Intn(len(c))])
+		// half of the draws from the generic values (envscan lists them first), half from the dictionary
+		if g := nGenericEnvValues; len(c) > g && r.Chance(1, 2) {
+			env = append(env, n+"="+c[r.Intn(g)])
+		} else {
+			env = append(env, n+"="+c[r.Intn(len(c))])
+		}
 	}
 	envPerturbed++
 	return env
@@ -366,18 +383,18 @@ func readTrace(path string) (lastRun int, sw []c14sim.SwitchEv) {
 
 type agg struct {
 	procs, runs, calls, switches, preempts int
-	yields                               uint64
-	strategies, probes                   map[string]int
-	sigs, sigsNT                         map[uint64]bool
-	pairs                                map[uint64]bool
-	digests                              map[uint64]string
-	samples                              []any
-	found                                []*finding
-	sweepPairs, sweepPoints, sweepCold   int
-	numSites                             int
-	clockJumps, timersFired, unowned     int
-	simNanos                             int64
-	stuck                                []string
+	yields                                 uint64
+	strategies, probes                     map[string]int
+	sigs, sigsNT                           map[uint64]bool
+	pairs                                  map[uint64]bool
+	digests                                map[uint64]string
+	samples                                []any
+	found                                  []*finding
+	sweepPairs, sweepPoints, sweepCold     int
+	numSites                               int
+	clockJumps, timersFired, unowned       int
+	simNanos                               int64
+	stuck                                  []string
 }
 
 type finding struct {
